@@ -78,7 +78,7 @@ def placeholders(lang, multi=False):
                 change=list(lc.lang_change_repl))
 
 
-EQ_AL = ['{D}', '{I}', '{D}', '{I}', '.', ',', ';', ':', ' ', ' ', '\n', 'word', 'Word', 'a', 'The', 'und', '1', '(',
+EQ_AL = ['{D}', '{I}', '{D}', '{I}', '{C}', '.', ',', ';', ':', ' ', ' ', '\n', 'word', 'Word', 'a', 'The', 'und', '1', '(',
          '\n\n', 'x', 'Ä', 'ärger', '  ', '!', '-']
 
 
@@ -90,6 +90,8 @@ def gen_eq_text(rnd, ph):
             a = rnd.choice(ph['display'])
         elif a == '{I}':
             a = rnd.choice(ph['inline'])
+        elif a == '{C}':
+            a = rnd.choice(ph['change'])     # language-change placeholder: never an equation
         out += a
     return out
 
@@ -129,7 +131,7 @@ class C20(core.Check):
     def cases(self, tier, seed, shard, nshards):
         rnd = core.sub_rng('C20', seed, shard)
         n = (200000 if tier == 'quick' else 3000000) // nshards
-        nsh = (96 if tier == 'quick' else 1000) // nshards
+        nsh = (320 if tier == 'quick' else 3000) // nshards
         for i in range(n):
             if i % 3 == 2:
                 lang = rnd.choice(['en', 'de', 'ru'])
@@ -299,7 +301,7 @@ class C20(core.Check):
 
     def quotas(self, tier):
         return {'fam_single': 20000, 'fam_eq': 10000, 'single_messages': 20000, 'single_accepted_letters': 3000,
-                'eq_messages': 1500, 'shell_runs': 60, 'shell_accept_placeholders': 10}
+                'eq_messages': 1500, 'shell_runs': 200, 'shell_accept_placeholders': 40}
 
 
 CHECK = C20
